@@ -200,6 +200,14 @@ SliceFails(e) ==
    THEN {<<"C09", "go-parse", D(e.toks)>>} ELSE {})
   \cup (IF ~SliceOK(tc.wtime, tc.winc, Mtg(tc), e.slice_w) THEN {<<"C09", "slice-contract-white", D(<<e.toks, e.slice_w>>)>>} ELSE {})
   \cup (IF ~SliceOK(tc.btime, tc.binc, Mtg(tc), e.slice_b) THEN {<<"C09", "slice-contract-black", D(<<e.toks, e.slice_b>>)>>} ELSE {})
+  \* C17: unknown tokens inside go are ignored - the same go without them (canon_toks; that it IS the same go is decided by
+  \* the specification's own scan) is parsed and planned identically by the engine
+  \cup (IF ~Has(e, "canon_toks") THEN {}
+        ELSE IF ParseGo(e.canon_toks) # tc THEN {<<"TOOL", "canonical-go-differs", D(<<e.toks, e.canon_toks>>)>>}
+        ELSE IF Has(e, "canon_panic") THEN {}
+        ELSE IF Has(e, "panic") THEN {<<"C17", "unknown-go-token-panics", D(e.toks)>>}
+        ELSE IF e.canon_parsed # e.parsed \/ e.canon_slice_w # e.slice_w \/ e.canon_slice_b # e.slice_b
+             THEN {<<"C17", "unknown-go-token-changes-plan", D(<<e.toks, e.parsed, e.canon_parsed>>)>>} ELSE {})
   \* only the mover's clock and increment matter: the same go with the other side's values changed
   \cup (IF e.slice_w_alt # e.slice_w THEN {<<"C09", "white-slice-depends-on-black-values", D(e.toks)>>} ELSE {})
   \cup (IF e.slice_b_alt # e.slice_b THEN {<<"C09", "black-slice-depends-on-white-values", D(e.toks)>>} ELSE {})
